@@ -105,7 +105,17 @@ fn run_block(ctx: &Ctx, K: usize, T: usize, seed: u64, exhaustive_small: bool, s
 fn run_object(ctx: &Ctx, seed: u64, idx: u64, st: &[AtomicU64; 4]) {
     let mut rng = Rng::derive(seed, 0x1818, idx);
     let s = gen_shape(&mut rng, 120, 48, 8);
-    let data = rng.bytes(s.F);
+    // data: random, constant, or periodic with the period of one symbol / one short block, so that
+    // consecutive source blocks can be byte-identical (block numbers must still differ)
+    let data = match idx % 4 {
+        0 => vec![0u8; s.F],
+        1 => {
+            let period = if rng.chance(1, 2) { s.T } else { s.T * (s.kt() / s.Z).max(1) };
+            let pat = rng.bytes(period);
+            (0..s.F).map(|i| pat[i % period]).collect()
+        }
+        _ => rng.bytes(s.F),
+    };
     let r = rng.below(7) as u32;
     let case = J::obj(vec![("object_case", J::i(idx)), ("seed", J::i(seed)), ("shape", s.json()), ("repair_per_block", J::i(r))]);
     let ks = s.block_ks();
@@ -186,7 +196,7 @@ pub fn run(ctx: &Ctx) -> i32 {
     ctx.cov("objects_whose_packet_list_order_was_checked", J::i(st[3].load(Relaxed)));
     ctx.floor("window_elements_compared_with_single_requests", st[1].load(Relaxed), 10_000);
     ctx.finish(
-        "per block (K in {1,3,10,11,101,257,1000} x T in {1,8,33}; thorough adds more K up to 56403): encoders from new(), from a generated plan and from a second/cloned plan must be equal; for every window (s,n) (exhaustive s 0..=50 x n 0..=20 for K in {3,10}; random n<=300 with s log-uniform up to 2^24-K-n, including windows ending exactly at ESI 2^24-1; overlapping pairs) element i must carry (SBN, ESI=K+s+i) and equal the single-packet request for that ESI (so overlapping windows agree); per object (multi-block incl. KL != KS): get_encoded_packets(r) = block by block, source 0..K-1 then repair K..K+r-1, all ids distinct, equal to the block encoders' own packets. What happens beyond ESI 2^24-1 is outside the property and never requested. non-trivial = window with n>=2; distinct by (K,s,n)",
+        "per block (K in {1,3,10,11,101,257,1000} x T in {1,8,33}; thorough adds more K up to 56403): encoders from new(), from a generated plan and from a second/cloned plan must be equal; for every window (s,n) (exhaustive s 0..=50 x n 0..=20 for K in {3,10}; random n<=300 with s log-uniform up to 2^24-K-n, including windows ending exactly at ESI 2^24-1; overlapping pairs) element i must carry (SBN, ESI=K+s+i) and equal the single-packet request for that ESI (so overlapping windows agree); per object (multi-block incl. KL != KS; data random, constant or periodic so that consecutive blocks can be byte-identical): get_encoded_packets(r) = block by block, source 0..K-1 then repair K..K+r-1, all ids distinct, equal to the block encoders' own packets. What happens beyond ESI 2^24-1 is outside the property and never requested. non-trivial = window with n>=2; distinct by (K,s,n)",
         &["byte-correctness of each symbol is C04's business; here only addressing consistency"],
         vec![],
     )
